@@ -3,6 +3,7 @@ use crate::util::{Ctx, Report};
 pub mod c02;
 pub mod c03;
 pub mod c05;
+pub mod c06;
 pub mod c07;
 pub mod c13;
 pub mod c14;
@@ -17,6 +18,7 @@ pub fn run(id: &str, ctx: &Ctx) -> Report {
         "C03" => c03::run(ctx),
         "C04" => c03::run_c04(ctx),
         "C05" => c05::run(ctx),
+        "C06" => c06::run(ctx),
         "C07" => c07::run(ctx),
         "C17" => c17::run(ctx),
         "C19" => c19::run(ctx),
